@@ -24,7 +24,7 @@ pub fn generate(rng: &mut Rng, tier: Tier, stats: &mut GenStats) -> Scenario {
         let link = if has_links && g.rng.chance(1, 2) { Link::ReadTarget } else { Link::ReadFile };
         let (mut expr, mut rooted) = ("**".to_string(), false);
         for _ in 0..6 {
-            let (e, r) = g.walk_glob(&model, &base, true, true, &mut stats.rejections);
+            let (e, r) = g.walk_glob(&model, &base, 2, true, &mut stats.rejections);
             if !prefix_touches_link(&model, &base, &e, r) {
                 expr = e;
                 rooted = r;
